@@ -48,6 +48,10 @@ def search(ctx, deep=False):
         if not (np.allclose(f, rf, atol=1e-8 * (1 + M)) and np.allclose(e, re, atol=1e-8 * (1 + M))):
             viol.append({"key": "krige-vs-definition", "what": "kriging kernel differs from cond·M·v / vᵀMv",
                          "case": dict(mat=mat.tolist(), vecs=vecs.tolist(), cond=cond.tolist())})
+    import threadcfg
+    ev_t, v_t = threadcfg.api_thread_sweep(ctx, ("randmeth", "fourier", "incompr", "vario", "vario-dir", "vario-axis"), ctx.scale(6, 60))
+    ev += ev_t
+    viol = v_t + viol
     sweep = ""
     if not ctx.quick or deep:
         # the property's 'serial and OpenMP builds of the current sources': rebuild the tree's generated C with gcc (serial and
@@ -57,4 +61,6 @@ def search(ctx, deep=False):
         viol = v_s + viol
         sweep = f"; rebuild of the generated C ({info.get('rebuild')}): {ev_s} runs of all nine entry points, tree .so == serial rebuild == OpenMP rebuild for num_threads in (None,1,2,3,4,8,16), sizes up to 3000 points"
     return {"evaluations": ev, "violations": viol[:5],
-            "summary": "summate / krige kernels vs numpy evaluation of the defining sums; num_threads in {None,1,2,3,4,8,16} bit-identical" + sweep}
+            "summary": "summate / krige kernels vs numpy evaluation of the defining sums; num_threads in {None,1,2,3,4,8,16} bit-identical; "
+                       f"{ev_t} public-API results (SRF with the three generators, vario_estimate isotropic / directional / along an axis) under "
+                       f"gstools.config.NUM_THREADS = 1, 2, 3, 5 against NUM_THREADS = None" + sweep}
